@@ -106,6 +106,29 @@ def check_case(case, ctx):
         return (lay.parse(0, list(res) if isinstance(res, (list, tuple)) else [res])[0],)
 
     base_cs = guarded(ctx, "call", call_at, state)
+    def rollout_at(stt):
+        """NumPy simulation loop: a first step, then the caller overwrites the next_states arrays in place with
+        the values of stt and feeds those very objects to a second step; locality must hold for that step too."""
+        from lib.sut import NumpyEngine
+
+        net2, els2, _ = S.build(sp)
+        pars = S.pars_kwargs(sp)
+        net2.step(init_conditions=S.ic_numpy(els2, state), engine=NumpyEngine(), **pars)
+        ic = {}
+        for i_, el in els2.items():
+            d = {}
+            for var, arr in (el.next_states or {}).items():
+                arr[...] = np.array(stt[i_][var], dtype=float)
+                d[var] = arr
+            for var in ("v_ctrl", "r", "q", "d"):
+                if var in stt.get(i_, {}):
+                    d[var] = np.array(stt[i_][var], dtype=float)
+            if d:
+                ic[el] = d
+        net2.step(init_conditions=ic, engine=NumpyEngine(), **S.opts_kwargs(case["opts"]), **pars)
+        return ({i_: {k: np.array(v, dtype=float).reshape(-1).copy() for k, v in el.next_states.items()} for i_, el in els2.items() if el.next_states},)
+
+    base_ro = guarded(ctx, "numpy-rollout", rollout_at, state)
     for idx in case["perturb"]:
         (iid, ivar, ik) = entries[idx]
         st2 = {i: {v: list(x) for v, x in s.items()} for i, s in state.items()}
@@ -113,6 +136,7 @@ def check_case(case, ctx):
         for tag, base, run in (
             ("numpy", base_np, lambda: S.step_numpy(sp, st2, case["opts"])),
             (sym, base_cs, lambda: call_at(st2)),
+            ("numpy-rollout", base_ro, lambda: rollout_at(st2)),
         ):
             if crashed(base):
                 continue
